@@ -125,7 +125,7 @@ cJSON *g_aita_array, *g_aita_item; cJSON_bool g_aita_ret; size_t g_aita_calls;
 #ifndef VF_ENF_add_item_to_array
 static cJSON_bool add_item_to_array_cv(cJSON *array, cJSON *item)
 __CPROVER_ensures(g_aita_array == array && g_aita_item == item && g_aita_ret == __CPROVER_return_value && g_aita_calls == __CPROVER_old(g_aita_calls) + 1)
-__CPROVER_ensures((item == NULL || array == NULL || array == item) ==> !__CPROVER_return_value)
+__CPROVER_ensures(__CPROVER_return_value == ((item == NULL || array == NULL || array == item) ? 0 : 1))   /* proved by unit w_add_item_to_array */
 __CPROVER_assigns(GHOST_AITA; array != NULL && item != NULL && array != item: array->child, item->next, item->prev);
 #endif
 
@@ -165,6 +165,7 @@ __CPROVER_ensures((!AITO_REFUSED && !constant_key && g_dup_ret != NULL) ==> (ite
 __CPROVER_ensures((!AITO_REFUSED && (constant_key || g_dup_ret != NULL) && !g_alias) ==> (OLD_KEY_OWNED ? __CPROVER_was_freed(__CPROVER_old(item->string)) : g_hook_frees == __CPROVER_old(g_hook_frees))) /*@C07*/
 /* then the item is appended to the object exactly once and that verdict is returned */
 __CPROVER_ensures((!AITO_REFUSED && (constant_key || g_dup_ret != NULL)) ==> (g_aita_calls == 1 && g_aita_array == object && g_aita_item == item && RET == g_aita_ret)) /*@C06*/
+__CPROVER_ensures(RET == 0 || RET == 1) /*@C06*/
 __CPROVER_ensures(C14_POST(*hooks)) /*@C14*/
 __CPROVER_assigns(GHOST_DUP, GHOST_AITA, GHOST_ALLOC; item != NULL && item != object: item->string, item->type, item->next, item->prev; object != NULL: object->child)
 __CPROVER_frees(item != NULL && item != object: item->string);
@@ -172,6 +173,7 @@ __CPROVER_frees(item != NULL && item != object: item->string);
 /* callee view: logged; false when refused; an attached item is owned by the object */
 __CPROVER_ensures(g_aito_object == object && g_aito_string == string && g_aito_item == item && g_aito_hooks == hooks && g_aito_const == constant_key && g_aito_ret == RET && g_aito_calls == __CPROVER_old(g_aito_calls) + 1)
 __CPROVER_ensures(AITO_REFUSED ==> !RET)
+__CPROVER_ensures(RET == 0 || RET == 1)
 __CPROVER_ensures(LIVE_SAME && C14_POST(global_hooks))
 __CPROVER_assigns(GHOST_AITO, GHOST_ALLOC; !AITO_REFUSED: item->string, item->type, item->next, item->prev, object->child);
 #endif
@@ -198,3 +200,61 @@ ADD_HELPER(cJSON_AddRawToObject, (cJSON * const object, const char * const name,
 ADD_HELPER(cJSON_AddObjectToObject, (cJSON * const object, const char * const name))
 ADD_HELPER(cJSON_AddArrayToObject, (cJSON * const object, const char * const name))
 #endif
+
+/* ------------------------------------------------------------------ cJSON_CreateString / cJSON_CreateRaw: node + owned copy; when the copy fails the node is deleted */
+#ifndef VF_CREATE_VIEWS
+#define CREATE_STR_CONTRACT(fn, arg, t) \
+CJSON_PUBLIC(cJSON *) fn(const char *arg) \
+__CPROVER_requires(HOOKS_OK(global_hooks) && g_dup_calls == 0 && g_del_calls == 0 && (arg == NULL || STR(arg, g_str_n))) \
+__CPROVER_ensures(RET != NULL ==> (__CPROVER_is_fresh(RET, sizeof(cJSON)) && NODE_IS(RET, t) && g_dup_calls == 1 && g_dup_src == (const unsigned char*)arg && RET->valuestring == (char*)g_dup_ret && g_dup_ret != NULL && g_del_calls == 0)) /*@C06 C07*/ \
+__CPROVER_ensures(RET == NULL ==> (LIVE_SAME && (g_dup_calls == 0 || (g_dup_ret == NULL && g_del_calls == 1)))) /*@C08 C07*/ \
+__CPROVER_ensures(arg == NULL ==> RET == NULL) /*@C06*/ \
+__CPROVER_ensures(C14_POST(global_hooks)) /*@C14*/ \
+__CPROVER_assigns(GHOST_DUP, g_del_arg, g_del_calls, GHOST_ALLOC);
+CREATE_STR_CONTRACT(cJSON_CreateString, string, cJSON_String)
+CREATE_STR_CONTRACT(cJSON_CreateRaw, raw, cJSON_Raw)
+#endif
+
+/* reference constructors: borrow the argument, never copy, flagged IsReference so that cJSON_Delete leaves it alone (C07) */
+CJSON_PUBLIC(cJSON *) cJSON_CreateStringReference(const char *string)
+__CPROVER_requires(HOOKS_OK(global_hooks))
+__CPROVER_ensures(RET == NULL || (__CPROVER_is_fresh(RET, sizeof(cJSON)) && NODE_IS(RET, cJSON_String | cJSON_IsReference) && RET->valuestring == string)) /*@C06 C07*/
+__CPROVER_ensures((RET == NULL ? LIVE_SAME : LIVE_IS(RET)) && C14_POST(global_hooks)) /*@C08 C14*/
+__CPROVER_assigns(GHOST_ALLOC);
+#define CREATE_REF_CONTRACT(fn, t) \
+CJSON_PUBLIC(cJSON *) fn(const cJSON *child) \
+__CPROVER_requires(HOOKS_OK(global_hooks)) \
+__CPROVER_ensures(RET == NULL || (__CPROVER_is_fresh(RET, sizeof(cJSON)) && RET->type == ((t) | cJSON_IsReference) && RET->child == child && RET->next == NULL && RET->prev == NULL && RET->string == NULL && RET->valuestring == NULL)) /*@C06 C07*/ \
+__CPROVER_ensures((RET == NULL ? LIVE_SAME : LIVE_IS(RET)) && C14_POST(global_hooks)) /*@C08 C14*/ \
+__CPROVER_assigns(GHOST_ALLOC);
+CREATE_REF_CONTRACT(cJSON_CreateObjectReference, cJSON_Object)
+CREATE_REF_CONTRACT(cJSON_CreateArrayReference, cJSON_Array)
+
+/* ------------------------------------------------------------------ cJSON_AddItemReferenceToArray / cJSON_AddItemReferenceToObject */
+const cJSON *g_ref_src; const internal_hooks *g_ref_hooks;
+#ifdef VF_REF_VIEWS
+static cJSON *create_reference_cv(const cJSON *item, const internal_hooks * const hooks)
+__CPROVER_ensures(RET == NULL ? g_cr_ret == NULL : (__CPROVER_is_fresh(g_cr_ret, sizeof(cJSON)) && __CPROVER_pointer_in_range_dfcc(g_cr_ret, RET, g_cr_ret) && RET == g_cr_ret))
+__CPROVER_ensures(item == NULL ==> RET == NULL)
+__CPROVER_ensures(RET == NULL ? LIVE_SAME : LIVE_IS(RET))
+__CPROVER_ensures(g_ref_src == item && g_ref_hooks == hooks && g_cr_calls == __CPROVER_old(g_cr_calls) + 1 && g_hook_frees == __CPROVER_old(g_hook_frees) && C14_POST(global_hooks))
+__CPROVER_assigns(g_cr_ret, g_cr_calls, g_ref_src, g_ref_hooks, GHOST_ALLOC);
+#endif
+CJSON_PUBLIC(cJSON_bool) cJSON_AddItemReferenceToArray(cJSON *array, cJSON *item)
+__CPROVER_requires(HOOKS_OK(global_hooks) && g_cr_calls == 0 && g_aita_calls == 0 && (array == NULL || __CPROVER_is_fresh(array, sizeof(cJSON))))
+__CPROVER_ensures(array == NULL ==> (!RET && g_cr_calls == 0 && g_aita_calls == 0)) /*@C06*/
+/* a reference node for the item is created with the global hooks and appended; the item itself is not touched (not in the frame) */
+__CPROVER_ensures(array != NULL ==> (g_cr_calls == 1 && g_ref_src == item && g_ref_hooks == &global_hooks && g_aita_calls == 1 && g_aita_array == array && g_aita_item == g_cr_ret && RET == g_aita_ret)) /*@C06 C07*/
+__CPROVER_ensures(!RET ==> LIVE_SAME) /*@C08*/
+__CPROVER_ensures(C14_POST(global_hooks)) /*@C14*/
+__CPROVER_assigns(g_cr_ret, g_cr_calls, g_ref_src, g_ref_hooks, GHOST_AITA, GHOST_ALLOC; array != NULL: array->child);
+
+CJSON_PUBLIC(cJSON_bool) cJSON_AddItemReferenceToObject(cJSON *object, const char *string, cJSON *item)
+__CPROVER_requires(HOOKS_OK(global_hooks) && g_cr_calls == 0 && g_aito_calls == 0 && g_del_calls == 0 && (object == NULL || __CPROVER_is_fresh(object, sizeof(cJSON))) && (string == NULL || STR(string, g_str_n)))
+__CPROVER_ensures((object == NULL || string == NULL) ==> (!RET && g_cr_calls == 0 && g_aito_calls == 0)) /*@C06*/
+__CPROVER_ensures((object != NULL && string != NULL) ==> (g_cr_calls == 1 && g_ref_src == item && g_ref_hooks == &global_hooks && g_aito_calls == 1 && g_aito_object == object &&
+    g_aito_string == string && g_aito_item == g_cr_ret && g_aito_hooks == &global_hooks && !g_aito_const && RET == g_aito_ret)) /*@C06 C07*/
+/* C08: when the call fails nothing allocated during it remains (the reference node included) */
+__CPROVER_ensures(!RET ==> LIVE_SAME) /*@C08 C07*/
+__CPROVER_ensures(C14_POST(global_hooks)) /*@C14*/
+__CPROVER_assigns(g_cr_ret, g_cr_calls, g_ref_src, g_ref_hooks, g_del_arg, g_del_calls, GHOST_AITO, GHOST_ALLOC; object != NULL: object->child);
